@@ -113,7 +113,12 @@ def monitor(rep, idx, c):
     pend = [(dom, t, ds) for dom, t, ds in c.targets_matching(
         lambda t: t[0] == 'sub' and t[1] == c.parse("self.pending"))]
     whole = c.drivers_of(c.parse("self.pending"))
-    if whole:
+    if whole and any(('for', L.id) in d_.gen for d_ in whole):
+        rep.bad("C13.2", site, "pending update",
+                "the whole pending vector is assigned inside the per-source loop: of several assignments to one signal the last one wins, so "
+                "when two sources trigger in the same cycle only the later source's bit is recorded and the other event is lost",
+                lines=[d_.lineno for d_ in whole])
+    elif whole:
         rep.unk("C13.2", site, "pending update", "pending is driven as a whole; the per-source table cannot be compared")
     elif not pend:
         rep.bad("C13.2", site, "pending update", "no pending bit is ever driven")
